@@ -181,8 +181,78 @@ def run_pairs(pid, tier, wd):
     return out
 
 
-def drive_bins():
-    return ["drive_config"] if os.path.exists(os.path.join(vlib.HARNESS, "src", "bin", "drive_config.rs")) else []
+def drive_bins(worker=False):
+    names = ["drive_config"] + (["drive_config_worker"] if worker else [])
+    return [n for n in names if os.path.exists(os.path.join(vlib.HARNESS, "src", "bin", n + ".rs"))]
+
+
+TRACE_CFG = """SPECIFICATION TraceSpec
+CONSTANTS
+  Family = "M"
+  MaxObj = 1000
+  MaxDepth = 1000000
+  Wide = FALSE
+  Deviations = %(dev)s
+  Emit = "none"
+INVARIANTS %(inv)s
+CONSTRAINT Track
+POSTCONDITION TraceAccepted
+CHECK_DEADLOCK FALSE
+"""
+
+
+def trace_cfg(wd, name, dev=(), inv=("P_C05", "P_C06_Near", "P_C07")):
+    path = os.path.join(wd, name)
+    with open(path, "w") as f:
+        f.write(TRACE_CFG % {"dev": tla_set(dev), "inv": " ".join(inv)})
+    return path
+
+
+def worker_leg(rep, pid, tier, wd, bins):
+    """C07 at worker level: a real worker thread receives seeded random commands; a Failure answer must leave
+    its queryable view unchanged, the view must match a library ConfigState fed with the same commands, and the
+    recorded (command, answer, configuration) trace must be a behaviour of WorkerHandle in ConfigState.tla with
+    exactly the open deviations switched on."""
+    if "drive_config_worker" not in bins:
+        return
+    thorough = tier == "thorough"
+    devs = vlib.open_deviations(pid)
+    trace = os.path.join(wd, "worker_trace.ndjson")
+    runs, steps = (8, 300) if thorough else (3, 200)
+    out = vlib.run_harness(bins["drive_config_worker"], ["--seed", str(vlib.seed()), "--runs", str(runs), "--steps", str(steps),
+                                                          "--out", trace], timeout=900)
+    summ = [o for o in out if o.get("kind") == "summary"]
+    if not summ:
+        raise vlib.ToolError("drive_config_worker produced no summary")
+    summ = summ[0]
+    for o in out:
+        if o.get("kind") == "violation":
+            rep.violation(o["class"], "%s: %s" % (o["class"], json.dumps(o["detail"])[:260]), o)
+    extra = summ["classes"].get("dev:WorkerKeepsRefused", 0) - sum(1 for o in out if o.get("class") == "dev:WorkerKeepsRefused")
+    if extra > 0 and "worker-keeps-refused" in rep.known:
+        rep.known["worker-keeps-refused"]["n"] += extra
+    r = vlib.tlc_trace("Trace_ConfigState", trace_cfg(wd, "worker_trace.cfg", dev=devs, inv=["P_C07"]), pid, trace, timeout=900)
+    rep.add_tlc(r)
+    if not r["accepted"]:
+        with open(trace) as f:
+            lines = f.readlines()
+        k = r["consumed"] or 0
+        ev = json.loads(lines[k]) if k < len(lines) else {}
+        ev.pop("post", None)
+        rep.violation("worker-trace-rejected:%s" % (ev.get("cmd", {}).get("verb", "?")),
+                      "the worker's behaviour is not explained by WorkerHandle with deviations %s: event %d: %s"
+                      % (devs, k + 1, json.dumps(ev)[:240]), "".join(lines[:k + 1]), name="worker_trace_rejected.ndjson")
+    else:
+        rep.cov["traces_validated_against_impl"] += summ["runs"]
+        rep.extra["worker_trace_events_validated"] = r["consumed"]
+    rep.extra["worker_leg"] = {k: summ[k] for k in ("runs", "commands", "failures", "no_answer", "classes")}
+    if summ["failures"] == 0:
+        raise vlib.ToolError("vacuous worker leg: no command was answered with Failure")
+    # the binding itself: with the deviations switched off the same trace must be rejected when it used one
+    if devs and summ["classes"].get("dev:WorkerKeepsRefused", 0) > 0:
+        rc = vlib.tlc_trace("Trace_ConfigState", trace_cfg(wd, "worker_trace_nodev.cfg", dev=[], inv=["P_C07"]), pid, trace, timeout=900)
+        if rc["accepted"]:
+            raise vlib.ToolError("the worker trace is accepted without the deviation although the harness saw it: the trace spec binds nothing")
 
 
 def trace_leg(rep, pid, tier, wd, bins, mode):
@@ -201,7 +271,7 @@ def trace_leg(rep, pid, tier, wd, bins, mode):
     for o in out:
         if o.get("kind") == "violation":
             rep.violation(o["class"], "%s: %s" % (o["class"], json.dumps(o["detail"])[:260]), o)
-    cfg = os.path.join(vlib.SPEC, "Trace_ConfigState.cfg")
+    cfg = trace_cfg(wd, "trace.cfg")
     r = vlib.tlc_trace("Trace_ConfigState", cfg, pid, trace, timeout=1500 if thorough else 600)
     rep.add_tlc(r)
     if not r["accepted"]:
